@@ -528,7 +528,7 @@ CHECKS = {
         "expected_probes": ["messages-delivered", "receive-ended-by-unsubscribe", "pubsub-hooks-session"],
         "components": {"real": REAL, "stubs": STUBS},
         "assumptions": [
-            "part 2 (variant resp2): AlwaysRESP2, where the client keeps a second connection for its subscriptions and dials it lazily under a sync.RWMutex (pipe.r2p); that lock is acquired through the lock seam (hook commits 3ef6acd and 8d886e0) because a goroutine waiting for it is not durably blocked for synctest; same plans and oracle as part 1 (1 of 80 seeds diverged between processes in the determinism self-test)","RESP3 only (the RESP2 side connection holds a mutex across its handshake, see DESIGN.md); re-subscription after connection loss is not exercised: no connection faults in this scenario",
+            "part 2 (variant resp2): AlwaysRESP2, where the client keeps a second connection for its subscriptions and dials it lazily under a sync.RWMutex (pipe.r2p); that lock is acquired through the lock seam (hook commits 3ef6acd and 8d886e0) because a goroutine waiting for it is not durably blocked for synctest; same plans and oracle as part 1 (1 of 80 seeds diverged between processes in the determinism self-test)","re-subscription after connection loss is not exercised: no connection faults in this scenario",
                         "a Receive ended by its deadline is only required to have got the messages delivered at least two scheduler steps before it returned"],
     },
     "C13": {
